@@ -206,9 +206,9 @@ where
 
     // Operations reachable from those in the set f.
     let reached = adjacency.indexed_values(f).unwrap();
-    // target is +1 because all edges could point to the same operation, so its indegree will be
-    // adjacency.len().
-    let target = adjacency.len() + K::I::one();
+    // target is +1 because all reached edges could point to the same operation, so its indegree
+    // can be as large as the number of reached adjacency entries (multiplicities count).
+    let target = reached.source() + K::I::one();
     let table = (reached.table.as_ref() as &K::Type<K::I>).bincount(adjacency.len());
     FiniteFunction::new(table, target).unwrap()
 }
@@ -238,8 +238,9 @@ where
     // Indices of operations reachable from those in the set f.
     // Indices may appear more than once.
     let g = a.indexed_values(f).unwrap();
+    // a count can be as large as the number of reached adjacency entries (multiplicities count).
+    let target = g.source() + K::I::one();
     let (i, c) = g.table.sparse_bincount();
-    let target = a.len() + K::I::one();
 
     (
         FiniteFunction::new(i, a.len()).unwrap(),
